@@ -514,7 +514,9 @@ struct channel_multiplier_unsigned {
     using result_type = ChannelValue;
     auto operator()(ChannelValue a, ChannelValue b) const -> ChannelValue
     {
-        return ChannelValue(static_cast<typename base_channel_type<ChannelValue>::type>(a / double(channel_traits<ChannelValue>::max_value()) * b));
+        // multiply first: a * b is exact in double for channels of up to 26 bits, which makes the
+        // result the exact truncated quotient and the operation commutative
+        return ChannelValue(static_cast<typename base_channel_type<ChannelValue>::type>(double(a) * double(b) / double(channel_traits<ChannelValue>::max_value())));
     }
 };
 
